@@ -104,6 +104,9 @@ structure Quirks where
   falsyRoute : Bool := false
   /-- pre-fix: a context without a class (type_transform, function call) also counts as a level -/
   rootLevel : Bool := false
+  /-- (never in the library; a seeded variant) a field setter chains its context to the one the instance was
+  built with, so the level at which the instance sits in an earlier parse is carried into the assignment -/
+  setterInherits : Bool := false
   deriving Repr
 
 def Quirks.fixed : Quirks := {}
@@ -384,6 +387,16 @@ def parseTop (W : World) (Q : Quirks) (E : Env) (fuel : Nat) (viaTransform : Boo
     Out Res × Nat :=
   let d0 := if viaTransform && Q.rootLevel then 1 else 0
   parse W Q E fuel { depth := d0, mode := Mode.lenient, md := none } (.data k) v
+
+/-- assignment to field `f` of an instance of class `k` (`inst.f = w`, `inst['f'] = w`, `inst.update(f=w)`, `|=`):
+`Schema.__field_setter__` / `__setitem__` (schema.py:322-372) build a *fresh* route-less context for the instance's
+class — `self.__parser__.make_context(force_error=True)`, no parent — and parse the value as that field
+(`field.parse_value`; an undeclared key goes through `parse_addition`).  `level` = the nesting level at which the
+instance was built in an earlier parse: the setter does not look at it. -/
+def parseAssign (W : World) (Q : Quirks) (E : Env) (fuel : Nat) (level : Nat) (k : Nat) (f : String) (w : Val) :
+    Out Res × Nat :=
+  let d0 := if Q.setterInherits then level else 0
+  parse W Q E fuel { depth := d0, mode := Mode.lenient, md := none } (.data k) (.dict [(.str f, w)])
 
 /-! ### the property's own vocabulary -/
 
